@@ -268,6 +268,23 @@ func judgeRanges(text []byte) *eng.Fail {
 	if got := formula.FormatDiagnostic(o.src, d); got != want {
 		return eng.F("C15/format-diagnostic", "after another text was parsed, FormatDiagnostic for this one gives %q, expected %q", got, want)
 	}
+	// the source that came back with the error locates every offset and every further diagnostic as well
+	ls := lineStartsRef(text)
+	for off := 0; off <= len(text); off++ {
+		l, c := lineColRef(ls, off)
+		if p := formula.GetFileLineAndCharacterFromPosition(o.src, off); p.Line != l || p.Column != c {
+			return eng.F("C15/line-col", "after the error was formatted, GetFileLineAndCharacterFromPosition(source, %d) = (%d,%d), expected (%d,%d)", off, p.Line, p.Column, l, c)
+		}
+	}
+	if got := formula.GetLineStarts(o.src); !reflect.DeepEqual(got, ls) {
+		return eng.F("C15/line-starts", "GetLineStarts of the returned source = %v, expected %v", got, ls)
+	}
+	for i, dd := range o.src.Diagnostics {
+		l, c := lineColRef(ls, dd.Start)
+		if got, w := formula.FormatDiagnostic(o.src, dd), fmt.Sprintf("pos(%d, %d) %s(%d) %s", l, c, catName[dd.Category], dd.Code, dd.MessageText); got != w {
+			return eng.F("C15/format-diagnostic", "diagnostic %d formats as %q, expected %q", i, got, w)
+		}
+	}
 	if o.src.Expression != nil && os.Getenv("VERIF_C15_ERRTREE") != "0" {
 		if f := checkRangesOnly(text, o.src.Expression, 0); f != nil {
 			return f
